@@ -168,7 +168,10 @@ impl Base {
     }
 }
 
-const COMMENTS: [&str; 6] = [" -- c1\n", "\n-- c2\n", " /- c3 -/ ", "\n/- c4 /- n -/ -/\n", "\n--| d5\n", " /- c6 -/\n"];
+/// comment kinds: trailing line comment, own-line line comment, inline block, nested block on its own
+/// lines, documentation line, block before a line end; and the empty-text shapes: a bare `--`, a line
+/// block ending in a bare marker, a documentation block ending in a bare marker
+const COMMENTS: [&str; 9] = [" -- c1\n", "\n-- c2\n", " /- c3 -/ ", "\n/- c4 /- n -/ -/\n", "\n--| d5\n", " /- c6 -/\n", "\n--\n", "\n-- c8\n--\n", "\n--| d9\n--|\n"];
 
 pub struct Fmt {
     mode: Mode,
@@ -398,10 +401,10 @@ impl Check for Fmt {
         false
     }
     fn rule(&self) -> String {
-        let common = format!("sources = mini corpus + {} formatter minis (one per printer-relevant production/position) + grammar pairs (every production, parenthesised, in every one-hole context) + every 240th (thorough: 12th) program of the core universe and every 48th (4th) of the System-F / F-omega universe as printed by the harness + repository sources up to the tier's size limit ({} parseable bases); deviations = at every token gap (strided on repository files in the quick tier) whitespace replaced by space / newline / blank line / double space, one atom parenthesised, one comment of 6 kinds inserted; directive configurations = all 336 combinations of width x indent x layout x parentheses x verbatim at the root for undeviated minis, 6 key configurations (default, width 1, width 20 preserve, width 40 ignore, width 80 indent 4 blank_lines, parentheses preserve) otherwise, of which only the three wide ones (default, width 40 ignore, parentheses preserve) for sources above 1500 bytes and for the generated programs; every formatter call under catch_unwind in a worker with a 120 s watchdog per case", FMT_MINIS.len(), self.bases.len());
+        let common = format!("sources = mini corpus + {} formatter minis (one per printer-relevant production/position) + grammar pairs (every production, parenthesised, in every one-hole context) + every 240th (thorough: 12th) program of the core universe and every 48th (4th) of the System-F / F-omega universe as printed by the harness + repository sources up to the tier's size limit ({} parseable bases); deviations = at every token gap (strided on repository files in the quick tier) whitespace replaced by space / newline / blank line / double space, one atom parenthesised, one comment of 9 kinds inserted (incl. empty-text line and documentation comments); directive configurations = all 336 combinations of width x indent x layout x parentheses x verbatim at the root for undeviated minis, 6 key configurations (default, width 1, width 20 preserve, width 40 ignore, width 80 indent 4 blank_lines, parentheses preserve) otherwise, of which only the three wide ones (default, width 40 ignore, parentheses preserve) for sources above 1500 bytes and for the generated programs; every formatter call under catch_unwind in a worker with a 120 s watchdog per case", FMT_MINIS.len(), self.bases.len());
         match self.mode {
             | Mode::Meaning => format!("{common}; oracle: rendering does not unwind or hang, the output parses, and the desugared structure of the output (bitter arena printed without ids/spans) equals that of the input; non-trivial = cases where the output differs from the input text"),
-            | Mode::Text => format!("{common}; here the comment deviation is exhaustive: each of the 6 comment kinds at every visited token gap; oracle (independent scanner on input and output): the ordered list of (kind, normalised text) of comments is identical — no loss, duplication or reordering (marker spacing and trailing blanks normalised; block bodies line by line without leading blanks, which move with the surrounding code); every name/literal token of the input occurs in the output (literals equally often, names within the factor pun rewriting allows) and vice versa; non-trivial = cases whose comment is not at a line start"),
+            | Mode::Text => format!("{common}; here the comment deviation is exhaustive: each of the 9 comment kinds at every visited token gap; oracle (independent scanner on input and output): the ordered list of (kind, normalised text) of comments is identical — no loss, duplication or reordering (marker spacing and trailing blanks normalised; block bodies line by line without leading blanks, which move with the surrounding code); every name/literal token of the input occurs in the output (literals equally often, names within the factor pun rewriting allows) and vice versa; non-trivial = cases whose comment is not at a line start"),
             | Mode::Idempotence => format!("{common}; oracle: fmt(fmt(x)) == fmt(x) bytewise, the output ends with exactly one newline, and a horizontal-spacing deviation (no newline added or removed) or a redundant parenthesis formats to the same bytes as the undeviated source (under layout(ignore) also newline deviations); non-trivial = cases where fmt(x) != x"),
         }
     }
